@@ -730,7 +730,7 @@ func TestCheck(t *testing.T) {
 	}
 	for _, b := range []string{"embedded", "raft"} {
 		pbt.Add(s, &pbt.Spec[vfCase30]{Name: b, Gen: vfGen30Filtered(b), Run: vfRun30Counted, Static: vfStatic30For(b),
-			Quick: 60, Thorough: 2400, Shards: 4, Nondet: true, Timeout: 12 * time.Minute})
+			Quick: 150, Thorough: 4000, Shards: 4, Nondet: true, Timeout: 12 * time.Minute})
 	}
 	s.Extra("embedded_gateway_flavour", vfGatewayFlavour)
 	s.Main(t)
